@@ -117,3 +117,15 @@ Definition rbm_step (r : rbm) (op : list Z) : rbm * list Z :=
   | _ => (r, [-1])
   end.
 Definition rbm_init (cfg : list Z) : rbm := match cfg with [n] => newRB n | _ => newRB 1 end.
+
+(* ---- a memory cell guarded by the lock: written only by a thread that is inside Lock..Unlock (action code 5,
+   arg = the value), read by whoever wants (the theorems speak about reads by lock holders).  This is the shape of
+   every shard-map access: Proof/RBMutexP.v derives from mutual exclusion that a reader sees the cell unchanged for
+   as long as it holds the lock, and that nobody else writes between two accesses of one writer. *)
+Record rbmem := mkRM { rm_lock : rbm; rm_val : Z; rm_writes : Z }.
+Definition rm_act (s : rbmem) (a : Z * Z * Z) : rbmem :=
+  let '(t, code, arg) := a in
+  if code =? 5 then
+    if writing (tpc (rm_lock s) t) then mkRM (rm_lock s) arg (rm_writes s + 1) else s
+  else mkRM (rb_act (rm_lock s) a) (rm_val s) (rm_writes s).
+Definition rm_new (n : Z) : rbmem := mkRM (newRB n) 0 0.
